@@ -39,8 +39,11 @@ def reverseJourney (cx : Ctx) (s : RState) (best : Option (Int × Nat)) : Outcom
           | some o => .ok (emit cx.ds cx.p.minWait bestDep o.journey)
         | _, _ => .exception "map::at"
 
-def mkCtx (ds : Dataset) (p : Params) (sc : Scenario) (accessFoot egressFoot : List NTD) (depT arrT : Int) : Ctx :=
-  { ds, p, cs := ds.connSetOf sc, disabled := queryDisabled ds p, accessFoot, egressFoot, depT, arrT }
+def mkCtx (ds : Dataset) (p : Params) (cs : ConnSet) (accessFoot egressFoot : List NTD) (depT arrT : Int) : Ctx :=
+  { ds, p, cs, disabled := queryDisabled ds p, accessFoot, egressFoot, depT, arrT }
+
+/-- the scenario record a parsed request names -/
+def Dataset.scenarioOf (ds : Dataset) (p : Params) : Scenario := ds.scenarios.getD p.scenario default
 
 /-- second half of `calculateSingle`: the reverse pass from arrival time `cx.arrT` -/
 def singleReverse (cx : Ctx) (usable : Nat → Bool) : Outcome Route :=
@@ -54,13 +57,12 @@ def singleReverse (cx : Ctx) (usable : Nat → Bool) : Outcome Route :=
 /-- `Calculator::calculateSingle` with the footpaths already looked up (`resetAccessPaths`
     only decides whether the router is asked again; the alternatives search passes the lists
     of the first calculation) -/
-def calculateSingleWith (ds : Dataset) (p : Params) (accessFoot egressFoot : List NTD) : Outcome Route :=
-  let sc := ds.scenarios.getD p.scenario default
+def calculateSingleWith (ds : Dataset) (cs : ConnSet) (p : Params) (accessFoot egressFoot : List NTD) : Outcome Route :=
   if accessFoot.isEmpty ∧ egressFoot.isEmpty then .noRouting .noAccessAtOriginAndDestination
   else if accessFoot.isEmpty then .noRouting .noAccessAtOrigin
   else if egressFoot.isEmpty then .noRouting .noAccessAtDestination
   else if p.forward then
-    let cx := mkCtx ds p sc accessFoot egressFoot p.time (-1)
+    let cx := mkCtx ds p cs accessFoot egressFoot p.time (-1)
     match lookupPos (fwdLookup cx.cs.fwd cx.cs.fwdIdx (hourOf p.time)) with
     | none => .exception "hour index out of bounds"
     | some start =>
@@ -70,11 +72,15 @@ def calculateSingleWith (ds : Dataset) (p : Params) (accessFoot egressFoot : Lis
         | none => .noRouting .noRoutingFound
         | some (bestArr, _) => singleReverse { cx with arrT := bestArr } fs.usable
   else
-    let cx := mkCtx ds p sc accessFoot egressFoot (-1) p.time
+    let cx := mkCtx ds p cs accessFoot egressFoot (-1) p.time
     singleReverse cx (fun _ => true)
 
+/-- with the per-scenario connection set `cs` the calculator obtained from `TransitData` -/
+def calculateSingleCS (ds : Dataset) (cs : ConnSet) (p : Params) : Outcome Route :=
+  calculateSingleWith ds cs p (routerLookup ds.access p.maxAccess) (routerLookup ds.egress p.maxEgress)
+
 def calculateSingle (ds : Dataset) (p : Params) : Outcome Route :=
-  calculateSingleWith ds p (routerLookup ds.access p.maxAccess) (routerLookup ds.egress p.maxEgress)
+  calculateSingleCS ds (ds.connSetOf (ds.scenarioOf p)) p
 
 /-! ### accessibility (all nodes) -/
 
@@ -138,12 +144,11 @@ def collectNodes (f : Nat → Outcome (Option AccNode)) : List Nat → List AccN
     | .exception w => .exception w
 
 /-- `Calculator::calculateAllNodes`; result: nodes (ascending stop id) and `totalNodeCount` -/
-def calculateAllNodes (ds : Dataset) (p : Params) : Outcome (List AccNode × Nat) :=
-  let sc := ds.scenarios.getD p.scenario default
+def calculateAllNodesCS (ds : Dataset) (cs : ConnSet) (p : Params) : Outcome (List AccNode × Nat) :=
   if p.forward then
     let accessFoot := routerLookup ds.access p.maxAccess
     if accessFoot.isEmpty then .noRouting .noAccessAtOrigin else
-    let cx := mkCtx ds p sc accessFoot [] p.time (-1)
+    let cx := mkCtx ds p cs accessFoot [] p.time (-1)
     match lookupPos (fwdLookup cx.cs.fwd cx.cs.fwdIdx (hourOf p.time)) with
     | none => .exception "hour index out of bounds"
     | some start =>
@@ -156,7 +161,7 @@ def calculateAllNodes (ds : Dataset) (p : Params) : Outcome (List AccNode × Nat
   else
     let egressFoot := routerLookup ds.egress p.maxEgress
     if egressFoot.isEmpty then .noRouting .noAccessAtDestination else
-    let cx := mkCtx ds p sc [] egressFoot (-1) p.time
+    let cx := mkCtx ds p cs [] egressFoot (-1) p.time
     match lookupPos (revLookup cx.cs.rev cx.cs.revIdx (hourOf p.time + 1)) with
     | none => .exception "hour index out of bounds"
     | some start =>
@@ -166,6 +171,9 @@ def calculateAllNodes (ds : Dataset) (p : Params) : Outcome (List AccNode × Nat
         | .ok l => .ok (l, ds.nStops)
         | .noRouting r => .noRouting r
         | .exception w => .exception w
+
+def calculateAllNodes (ds : Dataset) (p : Params) : Outcome (List AccNode × Nat) :=
+  calculateAllNodesCS ds (ds.connSetOf (ds.scenarioOf p)) p
 
 /-! ### alternatives -/
 
@@ -219,7 +227,7 @@ def addCombos (combination : List Nat) (st : AltState) : List (List Nat) → Alt
 
 /-- the main loop over `allCombinations` (which grows while it is traversed); `i` is the index,
     `fuel` bounds the number of iterations -/
-def altLoop (ds : Dataset) (pAlt : Params) (baseExcept : List Nat) (accessFoot egressFoot : List NTD)
+def altLoop (ds : Dataset) (cs : ConnSet) (pAlt : Params) (baseExcept : List Nat) (accessFoot egressFoot : List NTD)
     : Nat → Nat → AltState → Outcome AltState
   | 0, _, st => .ok st
   | fuel+1, i, st =>
@@ -228,24 +236,24 @@ def altLoop (ds : Dataset) (pAlt : Params) (baseExcept : List Nat) (accessFoot e
     | some combination =>
       if st.count < 200 ∧ st.seq - 1 < 50 then
         let p' := { pAlt with exceptLines := baseExcept ++ combination }
-        match calculateSingleWith ds p' accessFoot egressFoot with
+        match calculateSingleWith ds cs p' accessFoot egressFoot with
         | .exception w => .exception w
-        | .noRouting _ => altLoop ds pAlt baseExcept accessFoot egressFoot fuel (i+1)
+        | .noRouting _ => altLoop ds cs pAlt baseExcept accessFoot egressFoot fuel (i+1)
             { st with failed := st.failed ++ [combination], count := st.count + 1 }
         | .ok r =>
           let fl := sortNat (routeLines ds r)
           if ¬ fl.isEmpty ∧ ¬ st.found.contains fl then
             let st1 := { st with routes := st.routes ++ [r], found := st.found ++ [fl] }
             let st2 := addCombos combination st1 (allCombos fl)
-            altLoop ds pAlt baseExcept accessFoot egressFoot fuel (i+1) { st2 with seq := st2.seq + 1, count := st2.count + 1 }
-          else altLoop ds pAlt baseExcept accessFoot egressFoot fuel (i+1) { st with count := st.count + 1 }
-      else altLoop ds pAlt baseExcept accessFoot egressFoot fuel (i+1) st
+            altLoop ds cs pAlt baseExcept accessFoot egressFoot fuel (i+1) { st2 with seq := st2.seq + 1, count := st2.count + 1 }
+          else altLoop ds cs pAlt baseExcept accessFoot egressFoot fuel (i+1) { st with count := st.count + 1 }
+      else altLoop ds cs pAlt baseExcept accessFoot egressFoot fuel (i+1) st
 
 /-- `Calculator::alternativesRouting`: routes and `totalAlternativesCalculated` -/
-def alternativesRouting (ds : Dataset) (p : Params) : Outcome (List Route × Nat) :=
+def alternativesRoutingCS (ds : Dataset) (cs : ConnSet) (p : Params) : Outcome (List Route × Nat) :=
   let accessFoot := routerLookup ds.access p.maxAccess
   let egressFoot := routerLookup ds.egress p.maxEgress
-  match calculateSingleWith ds p accessFoot egressFoot with
+  match calculateSingleWith ds cs p accessFoot egressFoot with
   | .exception w => .exception w
   | .noRouting r => .noRouting r
   | .ok r0 =>
@@ -255,9 +263,12 @@ def alternativesRouting (ds : Dataset) (p : Params) : Outcome (List Route × Nat
     let st0 : AltState := { routes := [r0], allComb := combos, calculated := combos, found := [fl] }
     -- at most 200 calculations are made, and indices past the cap only skip: the list can
     -- grow by at most the number of calculations times 2^|lines| entries; fuel is generous
-    match altLoop ds pAlt p.exceptLines accessFoot egressFoot 100000 0 st0 with
+    match altLoop ds cs pAlt p.exceptLines accessFoot egressFoot 100000 0 st0 with
     | .ok st => .ok (st.routes, st.count)
     | .noRouting r => .noRouting r
     | .exception w => .exception w
+
+def alternativesRouting (ds : Dataset) (p : Params) : Outcome (List Route × Nat) :=
+  alternativesRoutingCS ds (ds.connSetOf (ds.scenarioOf p)) p
 
 end Tr
